@@ -349,6 +349,15 @@ func RichSchema(rng *rand.Rand, opt RichOptions) string {
 	hasM, hasS := rng.Intn(2) == 0, rng.Intn(3) == 0
 	if opt.RenamedRoots && rng.Intn(2) == 0 {
 		qn, mn, sn = "RootQ", "RootM", "RootS"
+		// also schemas in which only some of the roots carry a non-default name
+		switch rng.Intn(4) {
+		case 0:
+			qn = "Query"
+		case 1:
+			mn = "Mutation"
+		case 2:
+			qn, sn = "Query", "Subscription"
+		}
 	}
 	root := func(n string) {
 		g.desc("")
@@ -367,7 +376,7 @@ func RichSchema(rng *rand.Rand, opt RichOptions) string {
 	if hasS {
 		root(sn)
 	}
-	if qn != "Query" {
+	if qn != "Query" || (hasM && mn != "Mutation") || (hasS && sn != "Subscription") {
 		g.b.WriteString("schema {\n  query: " + qn + "\n")
 		if hasM {
 			g.b.WriteString("  mutation: " + mn + "\n")
